@@ -95,6 +95,8 @@ type gen struct {
 	// call no function, so that an assignment cannot double its target
 	// (exponential growth inside loops).
 	noGrow bool
+	// exclude names a variable that expressions must not reference at the moment
+	exclude string
 }
 
 func newGen(t *sim.Tape, c genConfig) *gen {
@@ -129,6 +131,9 @@ func (g *gen) vars(t typ) []gvar {
 			seen[v.name] = true
 			if v.mod != nil {
 				continue // module values are only used through modVars
+			}
+			if v.name == g.exclude {
+				continue
 			}
 			if v.t == t || t == tAny {
 				out = append(out, v)
@@ -565,7 +570,8 @@ func (g *gen) stmt(lvl int) string {
 		}
 		v := cands[g.t.Draw(len(cands))]
 		g.noGrow = true
-		defer func() { g.noGrow = false }()
+		g.exclude = v.name // never x = x + x: the declared type of x is only a guess
+		defer func() { g.noGrow = false; g.exclude = "" }()
 		switch {
 		case v.t == tInt && g.t.Bool(1, 2):
 			return ind(lvl) + v.name + " " + []string{"+=", "-=", "*="}[g.t.Draw(3)] + " " + g.expr(tInt, 2) + "\n"
